@@ -15,7 +15,7 @@ use std::sync::{Arc, Mutex};
 
 pub const GROUPS: &[&str] = &[
     "usart_dec", "usart_enc", "usart_rt", "can_dec", "can_enc", "can_rt", "to_frames", "frag_rt", "builder", "ev_enc", "ev_rt", "ev_dec",
-    "ev_cross", "rx_usart", "rx_serial", "rx_can", "rxh_usart", "rxh_serial", "rxh_can", "tx_usart", "tx_can", "tx_serial", "loop_usart",
+    "ev_cross", "ev_xenc", "rx_usart", "rx_serial", "rx_can", "rxh_usart", "rxh_serial", "rxh_can", "tx_usart", "tx_can", "tx_serial", "loop_usart",
     "loop_serial", "loop_can", "e2e_usart", "e2e_serial", "e2e_can", "proto", "usart_dec_enum", "can_dec_enum", "builder_enum",
 ];
 
@@ -552,6 +552,19 @@ fn exec_ev_dec(t: &[&str]) -> Option<String> {
         ""
     };
     Some(format!("{}{}", first, re))
+}
+
+/// `ev_xenc <event>`: encode with the real encoder, then show the packet to all sixteen real decoders
+fn exec_ev_xenc(t: &[&str]) -> Option<String> {
+    let e = Ev::parse(t.first()?)?;
+    let Some(p) = guard(|| e.to_packet()) else { return Some("panic".into()) };
+    let mut mask = 0u32;
+    for k in 0..16 {
+        if dec_str(k, &p).starts_with("ok(") {
+            mask |= 1 << k;
+        }
+    }
+    Some(format!("{:04x}", mask))
 }
 
 fn exec_ev_cross(t: &[&str]) -> Option<String> {
@@ -1652,6 +1665,22 @@ impl Gen {
             "ev_rt" => format!("ev_rt {}", gen_event_text(r, i)),
             "ev_dec" => format!("ev_dec {}", gen_ev_dec(r, i, &self.sweep)),
             "ev_cross" => format!("ev_cross {}", gen_ev_cross(r, i)),
+            "ev_xenc" => {
+                let mut e = Ev::gen((i % 16) as usize, r);
+                if let Ev::Data(ref mut d) = e {
+                    if r.below(4) != 0 {
+                        d.data_len = d.data.len() as u16;
+                    }
+                }
+                // boundary values that an encoder might special-case
+                match (&mut e, r.below(4)) {
+                    (Ev::BcmAnimate(a), 0) => a.duration = 0,
+                    (Ev::StartFirmware(a), 0) => a.firmware_size = 0,
+                    (Ev::StartConfig(a), 0) => a.config_size = 0,
+                    _ => {}
+                }
+                format!("ev_xenc {}", e.show())
+            }
             "rx_usart" => format!("rx usart {}", byte_script(&gen_byte_history(r, false, false))),
             "rx_serial" => format!("rx serial {} {}", byte_script(&gen_byte_history(r, true, false)), 1 + r.below(5)),
             "rx_can" => format!("rx can {}", can_script(&gen_can_history(r))),
@@ -1694,6 +1723,7 @@ pub fn exec(input: &str) -> Option<String> {
         "ev_rt" => exec_ev_rt(rest),
         "ev_dec" => exec_ev_dec(rest),
         "ev_cross" => exec_ev_cross(rest),
+        "ev_xenc" => exec_ev_xenc(rest),
         "rx" => exec_rx(rest, false),
         "rxh" => exec_rx(rest, true),
         "tx" => exec_tx(rest),
